@@ -534,6 +534,20 @@ def _append(e, st, node, recv, x):
         recv = recv.val
     if isinstance(a, Arr) and a.ndim == 1:
         v = e.deref(st, x)
+        if isinstance(v, Arr) and v.meta.get('slice_of') is not None and (a.meta.get('empty_literal') or a.kind == 'slices'):
+            base, lo, n = v.meta['slice_of']
+            if a.meta.get('empty_literal'):
+                a = Arr((z3.K(z3.IntSort(), z3.IntVal(0)), z3.K(z3.IntSort(), z3.IntVal(0))), (0,), 'slices', meta={'list': True, 'base': base})
+            if a.meta['base'] is not base and not z3.eq(a.meta['base'].term, base.term):
+                raise Unsupported('list of slices of different arrays')
+            st.heap[recv.oid] = Arr((z3.Store(a.term[0], a.shape[0], lo), z3.Store(a.term[1], a.shape[0], n)), (a.shape[0] + 1,), 'slices', None, a.meta)
+            return NONE
+        if isinstance(v, Tup) and all(is_sym(to_z3(t)) for t in v.items) and (a.meta.get('empty_literal') or a.kind == 'tuple'):
+            items = [to_z3(t) for t in v.items]
+            if a.meta.get('empty_literal'):
+                a = Arr(tuple(z3.K(z3.IntSort(), t) for t in items), (0,), 'tuple', meta={'list': True})
+            st.heap[recv.oid] = Arr(tuple(z3.Store(c, a.shape[0], t) for c, t in zip(a.term, items)), (a.shape[0] + 1,), 'tuple', None, a.meta)
+            return NONE
         if isinstance(v, (Arr, Tup)) and a.meta.get('empty_literal'):
             raise Unsupported('list of arrays (declare its kind in the contract)')
         if a.meta.get('empty_literal'):
@@ -683,3 +697,33 @@ def _ragged(e, st, node, array, lengths=None, **kw):
     # the real constructor never sets _data for empty input (ra.py: `elif len(array) > 0`)
     e.emit(e.site('ctor-data-nonempty', node), st, a.shape[0] > 0)
     return e.new_obj(st, RecV('RaggedArray', {'_data': array, 'lengths': lengths}))
+
+
+@prim('np.row_stack', 'np.vstack')
+def _rowstack(e, st, node, tup):
+    t = e.deref(st, tup)
+    if not isinstance(t, Tup):
+        raise Unsupported('row_stack of a symbolic-length sequence')
+    rows = [e.deref(st, r) for r in t.items]
+    if not all(isinstance(r, Arr) and r.ndim == 1 for r in rows):
+        raise Unsupported('row_stack of non 1-d rows')
+    for r in rows[1:]:
+        e.emit(e.site('shape', node), st, r.shape[0] == rows[0].shape[0])
+    kind = 'real' if any(r.kind == 'real' for r in rows) else rows[0].kind
+    def f(i, j):
+        v = e.num(rows[-1][j], kind)
+        for k in range(len(rows) - 2, -1, -1):
+            v = z3.If(i == k, e.num(rows[k][j], kind), v)
+        return v
+    return e.new_obj(st, e.lam(f, (z3.IntVal(len(rows)), rows[0].shape[0]), kind))
+
+
+@prim('util._get_distance_method', '_get_distance_method')
+def _gdm(e, st, node, m):
+    """name -> compiled kernel, callable -> itself; the kernels obey the metric contract by C13"""
+    return m
+
+
+@prim('util.ClusterResult', 'ClusterResult')
+def _cluster_result(e, st, node, **kw):
+    return e.new_obj(st, RecV('ClusterResult', kw))
